@@ -20,7 +20,7 @@ import numpy as np
 
 from . import tlc
 
-KIND_DTYPE = {"i": np.int64, "f": np.float64, "b": np.bool_}
+KIND_DTYPE = {"i": np.int64, "f": np.float64, "b": np.bool_, "n": np.float64}
 
 
 MUTANT = None  # set only by binding_selftest
@@ -73,6 +73,8 @@ def src_array(act):
         data = (k - 1 + salt).astype(np.int64)
     elif act["kind"] == "f":
         data = (2 * (k - 1) + 1 + 2 * salt) / 2.0
+    elif act["kind"] == "n":
+        data = np.where(k % 4 == 2, np.nan, (2 * ((k - 1) % 5) + 1 + 2 * salt) / 2.0)
     else:
         data = (((k + salt) * 3) % 5 < 2)
     return np.asarray(data).reshape(shape).astype(KIND_DTYPE[act["kind"]])
@@ -113,6 +115,8 @@ def apply_action(mod, act, env, lib):
     a = act["a"]
     X = lambda k="x": env[act[k] - 1]
     if a == "Index":
+        if lib == "da" and MUTANT == "negative-step-ignored":     # negative control (never set in a real run)
+            return X()[tuple(slice(e.start, e.stop, None) if isinstance(e, slice) and e.step == -1 else e for e in py_index(act["idx"]))]
         return X()[py_index(act["idx"])]
     if a == "Elemwise":
         f = getattr(mod, BIN[act["op"]])
@@ -158,9 +162,16 @@ def apply_action(mod, act, env, lib):
             return getattr(mod, op)(X(), axis=axis)
         kw["keepdims"] = bool(act["keepdims"])
         if lib == "da" and act["split_every"]:
-            kw["split_every"] = act["split_every"]
+            kw["split_every"] = {0: 2, 1: 3} if act["split_every"] == 23 else act["split_every"]
         with warnings.catch_warnings():
             warnings.simplefilter("ignore")
+            if lib == "da" and MUTANT == "reduce-drops-last-block":      # negative control (never set in a real run)
+                x = X()
+                ax0 = axes[0]
+                if x.numblocks[ax0] > 1:
+                    sl = [slice(None)] * x.ndim
+                    sl[ax0] = slice(0, x.shape[ax0] - x.chunks[ax0][-1])
+                    return getattr(mod, op)(x[tuple(sl)], axis=axis, **kw)
             return getattr(mod, op)(X(), axis=axis, **kw)
     if a == "ArgFlat":
         kw = {}
@@ -171,6 +182,8 @@ def apply_action(mod, act, env, lib):
         kw = {"axis": act["axis"] - 1}
         if lib == "da":
             kw["method"] = act["method"]
+            if MUTANT == "cumsum-per-block":                   # negative control (never set in a real run)
+                return X().map_blocks(lambda b: np.cumsum(b, axis=act["axis"] - 1), dtype=X().dtype)
         return getattr(mod, act["op"])(X(), **kw)
     if a == "Diff":
         return mod.diff(X(), axis=act["axis"] - 1)
@@ -240,6 +253,26 @@ def apply_action(mod, act, env, lib):
         return getattr(mod, act["op"])(X())
     if a == "Random":
         return make_random(mod, act)
+    if a == "AdvIndex":
+        x = X()
+        m = act["mode"]
+        if m == "mask":
+            mask = np.array(act["mask"], dtype=bool)
+            if lib == "da" and act["lib"] == "da":
+                mask = mod.from_array(mask, chunks=x.chunks[act["axis"] - 1])
+            return x[(slice(None),) * (act["axis"] - 1) + (mask,)]
+        if m == "intarr":
+            ix = np.array(act["list"], dtype=np.int64)
+            if lib == "da" and act["lib"] == "da":
+                ix = mod.from_array(ix, chunks=2)
+            return x[(slice(None),) * (act["axis"] - 1) + (ix,)]
+        if m == "vindex":
+            tup = tuple(list(l) if l else slice(None) for l in act["lists"])
+            return x.vindex[tup] if lib == "da" else x[tup]
+        if m == "ellipsis":
+            e = py_index([act["elem"]])[0]
+            return x[(..., e)] if act["where"] == "back" else x[(e, ...)]
+        raise KeyError(m)
     if a == "Persist":
         if lib == "np":
             return X()
@@ -655,7 +688,7 @@ def replay_one(beh, grids, observers=(), compute_all=True, opts=None, emit=None)
         if expect_err:
             # Only indexing is required to raise (C12); where NumPy has no result for another
             # operation the properties say nothing about what dask_array returns.
-            if d_err is None and act["a"] == "Index":
+            if d_err is None and act["a"] in ("Index", "AdvIndex"):
                 problems.append(("invalid-operation-did-not-raise", f"action {k}: {act} returned {got!r}"))
             # later actions never use an err handle (spec guarantees)
             continue
@@ -717,6 +750,8 @@ def _worker(args):
 
     # library calls that compute internally (compute_chunk_sizes, persist) must not start thread pools in forked workers
     dask.config.set(scheduler="sync")
+    if (opts or {}).get("config"):
+        dask.config.set(opts["config"])       # configuration scaling (e.g. a tiny rechunk degree limit) for this corpus run
 
     obs = []
     for pth in observers_path:
@@ -885,6 +920,20 @@ def binding_selftest(behaviours, seed=0):
     finally:
         MUTANT = None
     return len(picked), len([1 for _, cl in out.violations if cl == "values"])
+
+
+def binding_selftest_index(rd, seed=0):
+    """Negative control for the index checks: x[a:b:-1] replayed as x[a:b:1] must be detected."""
+    global MUTANT
+    behs, _ = generate_programs(["Index"], 1, "1d", sim=False, smax=1, idxpad=0, emit_all=True, rundir=rd)
+    picked = [b for b in behs if b["prog"][-1]["a"] == "Index" and any(e["k"] == "slice" and e["step"] == -1 for e in b["prog"][-1]["idx"])
+              and b["prog"][0]["shape"][0] >= 3 and len(b["env"][-1]["data"]) >= 2][:40]
+    MUTANT = "negative-step-ignored"
+    try:
+        out = run_corpus(picked, max_variants=1, seed=seed, procs=1)
+    finally:
+        MUTANT = None
+    return len(picked), len([1 for _, cl in out.violations if cl in ("values", "shape")])
 
 
 def replay_file(chk, path):
